@@ -9,6 +9,10 @@
 //!    in creation order) and with the same output id, the graph the real compiler emitted; the lhs
 //!    also evaluates `mpc_mirrored` on the source, which must be true (the model's fragment);
 //!  * `planner` — the private set and the set of nodes to reshare (sorted ids) of the two analyses;
+//!  * `T:gadget-literal` — for every Custom node (AddMPC, SubtractMPC, MultiplyMPC, DotMPC, MatmulMPC,
+//!    GemmMPC) of a compiled graph: the graph `CustomOperation::instantiate` builds on the argument
+//!    types equals `gadget_body` node for node (the gadget semantics used by the theorem is PROVED
+//!    from these bodies, Proofs/MpcCompileGadgets.v);
 //!  * `T:compile-rejected` — programs the compiler rejects (operations it does not compile, or
 //!    an is_input_private vector that is too short): same Err / Panic.
 use crate::coqfmt::*;
@@ -54,6 +58,44 @@ fn mirrored(g: &Graph) -> bool {
                 | Operation::Sort(_)
         )
     })
+}
+
+/// Gallina term of the gadget named by a Custom node (Model/MpcCompile.v `gadget`)
+fn gadget_coq(name: &str) -> Option<String> {
+    match name {
+        "AddMPC" => Some("GAdd".into()),
+        "SubtractMPC" => Some("GSub".into()),
+        "MultiplyMPC" => Some("(GBil OMultiply)".into()),
+        "DotMPC" => Some("(GBil ODot)".into()),
+        "MatmulMPC" => Some("(GBil OMatmul)".into()),
+        _ => name.strip_prefix("GemmMPC-").and_then(|r| { let v: Vec<&str> = r.split('-').collect(); if v.len() == 2 { Some(format!("(GBil (OGemm {} {}))", v[0], v[1])) } else { None } }),
+    }
+}
+
+/// `T:gadget-literal`: the graph `instantiate` builds for a Custom node of a compiled graph, on the
+/// types of its arguments, equals `gadget_body` node for node (with the same output id)
+fn gadget_cases(cg: &Graph, seen: &mut std::collections::HashSet<String>, out: &mut Out) {
+    for n in cg.get_nodes() {
+        if let Operation::Custom(c) = n.get_operation() {
+            let name = c.get_name();
+            let g = match gadget_coq(&name) { Some(g) => g, None => continue };
+            let tys: Vec<Type> = n.get_node_dependencies().iter().map(|d| d.get_type().unwrap()).collect();
+            let key = format!("{}|{}", name, tys.iter().map(|t| format!("{}", t)).collect::<Vec<_>>().join("|"));
+            if !seen.insert(key) { continue; }
+            let ictx = create_context().unwrap();
+            let (c2, i2, t2) = (c.clone(), ictx.clone(), tys.clone());
+            let r = observe(move || c2.instantiate(i2, t2));
+            out.stat(&format!("deep:gadget-instantiate:{}", r.tag()));
+            let private = tys.iter().any(|t| t.is_tuple());
+            let rhs = match &r {
+                Outcome::Ok(ig) => { let _ = ig.set_as_main(); let _ = ictx.finalize(); format!("(Ok ({}, {}))", nodes_coq(ig), ig.get_output_node().unwrap().get_id()) }
+                Outcome::Err => "Err".to_string(),
+                Outcome::Panic => "Panic".to_string(),
+            };
+            let desc = json!({"gadget": name, "argument_types": tys.iter().map(|t| format!("{}", t)).collect::<Vec<_>>()});
+            out.case("T:gadget-literal", format!("gadget_body {} {}", g, list(&tys, |t| ty(t))), rhs, desc, private);
+        }
+    }
 }
 
 fn flags_coq(f: &[bool]) -> String {
@@ -115,7 +157,7 @@ fn all_flag_vectors(n: usize) -> Vec<Vec<bool>> {
     (0..(1u32 << n)).map(|m| (0..n).map(|j| m & (1 << j) != 0).collect()).collect()
 }
 
-fn deep_cases(p: &Prog, flags: &[bool], stream: &str, out: &mut Out) {
+fn deep_cases(p: &Prog, flags: &[bool], stream: &str, seen: &mut std::collections::HashSet<String>, out: &mut Out) {
     if !mirrored(&p.g) { out.stat("deep:skipped-not-mirrored"); return; }
     let src = nodes_coq(&p.g);
     let oid = p.g.get_output_node().unwrap().get_id();
@@ -136,6 +178,7 @@ fn deep_cases(p: &Prog, flags: &[bool], stream: &str, out: &mut Out) {
             let nres = cg.get_nodes().iter().filter(|n| matches!(n.get_operation(), Operation::NOP)).count() / 3;
             out.stat(&format!("deep:reshares:{}", std::cmp::min(nres, 4)));
             for n in cg.get_nodes() { if let Operation::Custom(c) = n.get_operation() { out.stat(&format!("deep:gadget:{}", c.get_name())); } }
+            gadget_cases(cg, seen, out);
             format!("(true, Ok ({}, {}))", nodes_coq(cg), cg.get_output_node().unwrap().get_id())
         }
         Outcome::Err => "(true, Err)".to_string(),
@@ -166,14 +209,14 @@ fn planner_case(p: &Prog, flags: &[bool], out: &mut Out) {
     out.case("planner", format!("private_and_reshared {} {} {}", src, oid, flags_coq(flags)), prhs, desc, private);
 }
 
-fn run_flags(p: &Prog, stream: &str, exhaustive: bool, rng: &mut Rng, out: &mut Out) {
+fn run_flags(p: &Prog, stream: &str, exhaustive: bool, rng: &mut Rng, seen: &mut std::collections::HashSet<String>, out: &mut Out) {
     let n = p.input_types.len();
     if exhaustive && n <= 3 {
-        for f in all_flag_vectors(n) { deep_cases(p, &f, stream, out); }
+        for f in all_flag_vectors(n) { deep_cases(p, &f, stream, seen, out); }
     } else {
-        deep_cases(p, &vec![true; n], stream, out);
+        deep_cases(p, &vec![true; n], stream, seen, out);
         let f: Vec<bool> = (0..n).map(|_| rng.chance(1, 2)).collect();
-        if f.iter().any(|b| !*b) { deep_cases(p, &f, stream, out); }
+        if f.iter().any(|b| !*b) { deep_cases(p, &f, stream, seen, out); }
     }
 }
 
@@ -181,16 +224,17 @@ pub fn run(tier: &str, rng: &mut Rng, out: &mut Out) {
     let (n_ring, n_mix, n_thm, n_gen, n_rej) = match tier { "thorough" => (80, 90, 120, 300, 12), "search" => (10, 18, 10, 20, 6), _ => (14, 18, 16, 40, 6) };
     let n_mul = match tier { "thorough" => 150, "search" => 10, _ => 20 };
     let exhaustive = tier == "thorough";
+    let mut seen = std::collections::HashSet::new();
     let int_sts = [UINT8, INT16, UINT32, INT32, UINT64, INT64, UINT128];
     for i in 0..n_ring {
         let st = if i % 5 == 4 { BIT } else { *rng.pick(&int_sts) };
         let p = ring_program(rng, st);
-        run_flags(&p, "ring", exhaustive, rng, out);
+        run_flags(&p, "ring", exhaustive, rng, &mut seen, out);
     }
     for i in 0..n_mix {
         let st = *rng.pick(&int_sts);
         let p = crate::c01::broadcast_mix_program(rng, st, i * 5 + 1);
-        run_flags(&p, "broadcast-mix", true, rng, out);
+        run_flags(&p, "broadcast-mix", true, rng, &mut seen, out);
     }
     for i in 0..(n_thm + n_gen) {
         let thm = i < n_thm;
@@ -200,7 +244,7 @@ pub fn run(tier: &str, rng: &mut Rng, out: &mut Out) {
         let cfg = GenCfg { n_inputs: ni, n_ops: no, scalar_types: vec![st], ops, small: true };
         // tuple outputs (most of the graph live, CreateTuple output) and single array outputs
         let p = if i % 3 == 0 { gen_program(rng, &cfg) } else { gen_program_single_output(rng, &cfg) };
-        run_flags(&p, if thm { "theorem-fragment" } else { "fragment" }, exhaustive, rng, out);
+        run_flags(&p, if thm { "theorem-fragment" } else { "fragment" }, exhaustive, rng, &mut seen, out);
     }
     // product-heavy programs, all inputs private (and one random vector)
     for i in 0..n_mul {
@@ -208,17 +252,17 @@ pub fn run(tier: &str, rng: &mut Rng, out: &mut Out) {
         let (ni, no) = (2 + rng.below(2) as usize, 3 + rng.below(7) as usize);
         let cfg = GenCfg { n_inputs: ni, n_ops: no, scalar_types: vec![st], ops: DEEP_MUL_OPS.to_vec(), small: true };
         let p = if i % 2 == 0 { gen_program(rng, &cfg) } else { gen_program_single_output(rng, &cfg) };
-        run_flags(&p, "mul-heavy", false, rng, out);
+        run_flags(&p, "mul-heavy", false, rng, &mut seen, out);
     }
     // rejected: operations outside is_mpc_compiled / the `_ =>` arms, and a too short flag vector
     for i in 0..n_rej {
         let p = rejected_program(rng, i);
-        deep_cases(&p, &[true, i % 2 == 0], "rejected-op", out);
+        deep_cases(&p, &[true, i % 2 == 0], "rejected-op", &mut seen, out);
     }
     for i in 0..std::cmp::max(2, n_rej / 3) {
         let p = ring_program(rng, UINT32);
         let n = p.input_types.len();
         let f: Vec<bool> = (0..n - 1).map(|j| (i + j) % 2 == 0).collect();
-        deep_cases(&p, &f, "short-flags", out);
+        deep_cases(&p, &f, "short-flags", &mut seen, out);
     }
 }
